@@ -215,12 +215,35 @@ fn run_cmd(mut cmd: Command, limit: Duration, drop_priv: bool, during: Option<&d
         match ch.try_wait().unwrap() {
             Some(st) => break st.code(),
             None => {
-                if t0.elapsed() > limit { timed_out = true; let _ = ch.kill(); let _ = ch.wait(); break None; }
+                if t0.elapsed() > limit {
+                    timed_out = true;
+                    // where is it stuck?  (kept next to the cases for the report; best effort)
+                    if let Ok(o) = Command::new("timeout").args(["25", "gdb", "-p", &ch.id().to_string(), "-batch", "-ex", "thread apply all bt 12"])
+                        .stdin(Stdio::null()).stderr(Stdio::null()).output() {
+                        let _ = fs::OpenOptions::new().create(true).append(true).open("/verif/.cache/c18_timeouts.log").and_then(|mut f| {
+                            use std::io::Write;
+                            writeln!(f, "==== pid {} timed out after {:?}\n{}", ch.id(), limit, String::from_utf8_lossy(&o.stdout).chars().take(20000).collect::<String>())
+                        });
+                    }
+                    let _ = ch.kill(); let _ = ch.wait(); break None;
+                }
                 std::thread::sleep(Duration::from_millis(2));
             }
         }
     };
     RunOut { status, timed_out, stdout: t1.join().unwrap(), stderr: t2.join().unwrap() }
+}
+
+/// A run that hits the time limit is repeated (up to 3 attempts): only a hang that shows again is
+/// reported; a single unexplained stall on a loaded machine is counted in the statistics.
+fn run_retry(mk: &dyn Fn() -> Command, limit: Duration, drop_priv: bool, stats: &mut Stats) -> RunOut {
+    let mut last = run_cmd(mk(), limit, drop_priv, None);
+    for _ in 0..2 {
+        if !last.timed_out { return last; }
+        stats.inc("runs_hit_time_limit_and_were_repeated");
+        last = run_cmd(mk(), limit, drop_priv, None);
+    }
+    last
 }
 
 /// utime+stime of a process in clock ticks
@@ -313,6 +336,263 @@ fn diff_summary(obs: &[(u64, u64)], exp: &[(u64, u64)]) -> (usize, usize, String
         missing.iter().take(8).cloned().collect::<Vec<_>>().join(",")))
 }
 
+// ------------------------------------------------------------------ option matrix: source rules vs compiled rules
+// "compiled-rules files give the same output as source rules": for every option that changes the results
+// or their presentation and is accepted in both modes, `yr scan <opts> rules.yar` and
+// `yr compile <compile opts> && yr scan <opts> --compiled-rules rules.yarc` must print the same lines,
+// and both must agree with per-file library scans done with the SAME globals and scan options.
+#[derive(Clone, Debug)]
+enum Val { I(i64), B(bool), S(&'static str), F(f64) }
+impl Val {
+    fn json(&self) -> String { match self { Val::I(i) => i.to_string(), Val::B(b) => b.to_string(), Val::S(s) => format!("\"{}\"", s), Val::F(f) => format!("{:?}", f) } }
+}
+
+const OPT_RULES: &str = r#"rule g_high : t1 { meta: author = "x" n = 3 condition: level >= 5 }
+rule g_low : t2 { condition: level < 5 }
+rule g_str : t1 t2 { strings: $a = "TOK0_" condition: $a and who == "bob" }
+rule g_bool { condition: flag and filesize > 0 }
+rule g_float : t2 { condition: ratio > 2.0 }
+rule cnt : t1 { strings: $a = "TOK4_" condition: #a >= 2 }
+rule plain : t1 { meta: k = true strings: $a = "TOK1_" condition: $a }
+private rule priv { condition: level >= 5 }
+rule uses_priv : t2 { condition: priv and filesize < 300 }
+"#;
+const OPT_RULE_NAMES: [&str; 10] = ["g_high", "g_low", "g_str", "g_bool", "g_float", "cnt", "plain", "priv", "uses_priv", "m_math"];
+
+#[derive(Clone, Debug)]
+struct Opts {
+    threads: usize, ndjson: bool, tag: Option<&'static str>, negate: bool, count: bool, max_matches: Option<usize>,
+    print_strings: Option<Option<usize>>, print_meta: bool, print_tags: bool, print_namespace: bool, path_as_namespace: bool,
+    skip_larger: Option<u64>, scan_list: bool, ignore_module: bool, depth: Option<usize>, recursive: bool,
+    scan_vals: Vec<(&'static str, Val)>, compile_vals: Vec<(&'static str, Val)>,
+}
+
+fn gen_vals(rng: &mut Rng) -> Vec<(&'static str, Val)> {
+    vec![("level", Val::I(*rng.pick(&[1, 4, 5, 7, -3]))), ("who", Val::S(*rng.pick(&["alice", "bob", ""]))),
+         ("flag", Val::B(rng.chance(1, 2))), ("ratio", Val::F(*rng.pick(&[1.5, 2.5, 2.0001, -0.5])))]
+}
+
+fn gen_opts(rng: &mut Rng, corpus: bool) -> Opts {
+    let scan_vals = gen_vals(rng);
+    // compile-time values: usually different from the scan-time ones (every variable, every type)
+    let mut compile_vals = if rng.chance(1, 6) && !corpus { scan_vals.clone() } else { gen_vals(rng) };
+    if corpus {
+        compile_vals = vec![("level", Val::I(1)), ("who", Val::S("alice")), ("flag", Val::B(false)), ("ratio", Val::F(1.5))];
+        return Opts { threads: 4, ndjson: false, tag: None, negate: false, count: false, max_matches: None, print_strings: None, print_meta: false,
+            print_tags: false, print_namespace: false, path_as_namespace: false, skip_larger: None, scan_list: false, ignore_module: false,
+            depth: None, recursive: true,
+            scan_vals: vec![("level", Val::I(7)), ("who", Val::S("bob")), ("flag", Val::B(true)), ("ratio", Val::F(2.5))], compile_vals };
+    }
+    let scan_list = rng.chance(1, 8);
+    let (recursive, depth) = match rng.below(6) { 0 => (false, None), 1 => (true, Some(1 + rng.below(2) as usize)), _ => (true, None) };
+    Opts {
+        threads: match rng.below(5) { 0 => 1, 1 => 2, 2 => 8, 3 => 32, _ => 1 + rng.below(32) as usize },
+        ndjson: rng.chance(1, 2), tag: if rng.chance(1, 4) { Some(*rng.pick(&["t1", "t2", "nope"])) } else { None },
+        negate: rng.chance(1, 5), count: rng.chance(1, 5),
+        max_matches: if rng.chance(1, 4) { Some(*rng.pick(&[1usize, 2, 5])) } else { None },
+        print_strings: if rng.chance(1, 4) { Some(if rng.chance(1, 2) { Some(3) } else { None }) } else { None },
+        print_meta: rng.chance(1, 4), print_tags: rng.chance(1, 4), print_namespace: rng.chance(1, 3), path_as_namespace: rng.chance(1, 4),
+        skip_larger: if rng.chance(1, 5) { Some(*rng.pick(&[0u64, 20, 100, 400])) } else { None },
+        scan_list, ignore_module: rng.chance(1, 4), depth, recursive, scan_vals, compile_vals,
+    }
+}
+
+fn scan_args(o: &Opts) -> Vec<String> {
+    let mut a: Vec<String> = vec!["scan".into(), "--threads".into(), o.threads.to_string(), "--disable-console-logs".into()];
+    if o.scan_list { a.push("--scan-list".into()); }
+    else if o.recursive { a.push(match o.depth { Some(k) => format!("--recursive={}", k), None => "--recursive".into() }); }
+    if o.ndjson { a.push("--output-format".into()); a.push("ndjson".into()); }
+    if let Some(t) = o.tag { a.push("--tag".into()); a.push(t.into()); }
+    if o.negate { a.push("--negate".into()); }
+    if o.count { a.push("--count".into()); }
+    if let Some(m) = o.max_matches { a.push("--max-matches-per-pattern".into()); a.push(m.to_string()); }
+    if let Some(ps) = o.print_strings { a.push(match ps { Some(n) => format!("--print-strings={}", n), None => "--print-strings".into() }); }
+    if o.print_meta { a.push("--print-meta".into()); }
+    if o.print_tags { a.push("--print-tags".into()); }
+    if o.print_namespace { a.push("--print-namespace".into()); }
+    if let Some(sz) = o.skip_larger { a.push("--skip-larger".into()); a.push(sz.to_string()); }
+    for (n, v) in &o.scan_vals { a.push("--define".into()); a.push(format!("{}={}", n, v.json())); }
+    a
+}
+
+/// (file, payload) lines of an option run. text: `[ns:]rule [tags] [meta] <path>` (+ lines starting with 0x for
+/// --print-strings, ignored), `<path>: N` with --count; ndjson: {"path","rules":[..]} or {"path","count"}.
+fn parse_opt_output(out: &[u8], o: &Opts, root_prefix: &str, path_ids: &HashMap<String, u64>, rule_ids: &HashMap<String, u64>) -> Parsed {
+    let text = String::from_utf8_lossy(out);
+    let mut lines = vec![];
+    let mut bad = 0;
+    for l in text.split('\n') {
+        if l.is_empty() { continue; }
+        if o.ndjson {
+            match serde_json::from_str::<serde_json::Value>(l) {
+                Ok(v) => {
+                    let f = *path_ids.get(v.get("path").and_then(|x| x.as_str()).unwrap_or("")).unwrap_or(&UNKNOWN_FILE);
+                    if o.count { lines.push((f, v.get("count").and_then(|x| x.as_u64()).unwrap_or(UNKNOWN_RULE))); }
+                    else {
+                        let mut mask = 0u64; let mut ok = true;
+                        match v.get("rules").and_then(|x| x.as_array()) {
+                            Some(rs) => for r in rs { match r.get("identifier").and_then(|x| x.as_str()).and_then(|s| rule_ids.get(s)) {
+                                Some(id) => { if mask & (1 << id) != 0 { ok = false; } mask |= 1 << id; } None => ok = false } },
+                            None => ok = false,
+                        }
+                        lines.push((f, if ok { mask } else { UNKNOWN_RULE }));
+                    }
+                }
+                Err(_) => { bad += 1; lines.push((UNKNOWN_FILE, UNKNOWN_RULE)); }
+            }
+        } else if o.count {
+            match l.rsplit_once(": ") {
+                Some((p, n)) => lines.push((*path_ids.get(p).unwrap_or(&UNKNOWN_FILE), n.parse::<u64>().unwrap_or(UNKNOWN_RULE))),
+                None => { bad += 1; lines.push((UNKNOWN_FILE, UNKNOWN_RULE)); }
+            }
+        } else {
+            if l.starts_with("0x") { continue; }       // a match line of --print-strings
+            let first = l.split(' ').next().unwrap_or("");
+            let rule = first.rsplit(':').next().unwrap_or("");
+            match l.find(root_prefix) {
+                Some(k) => lines.push((*path_ids.get(&l[k..]).unwrap_or(&UNKNOWN_FILE), *rule_ids.get(rule).unwrap_or(&UNKNOWN_RULE))),
+                None => { bad += 1; lines.push((UNKNOWN_FILE, UNKNOWN_RULE)); }
+            }
+        }
+    }
+    lines.sort();
+    Parsed { lines, bad_lines: bad }
+}
+
+fn define_all(c: &mut yara_x::Compiler, vals: &[(&'static str, Val)]) {
+    for (n, v) in vals {
+        match v { Val::I(i) => { c.define_global(n, *i).unwrap(); } Val::B(b) => { c.define_global(n, *b).unwrap(); }
+                  Val::S(s) => { c.define_global(n, *s).unwrap(); } Val::F(f) => { c.define_global(n, *f).unwrap(); } }
+    }
+}
+
+#[allow(clippy::too_many_arguments)]
+fn option_tree(rng: &mut Rng, work: &Path, tree_idx: usize, yr: &str, cap: usize, limit: Duration, seed: u64, has_math: bool, corpus: bool,
+               budget: usize, stats: &mut Stats, distinct: &mut HashSet<(usize, usize, bool, bool)>, samples: &mut Vec<String>, shards: &mut Shards) -> usize {
+    let tdir = work.join(format!("t{}", tree_idx));
+    let root = tdir.join("root dir");
+    fs::create_dir_all(&tdir).unwrap();
+    let mut tree = gen_tree(rng, &root, TreeKind::Stable, 6, cap);
+    if tree.files.len() > 160 { // keep option trees small: the subject here is the option plumbing
+        for f in tree.files.drain(160..) { let _ = fs::remove_file(root.join(OsString::from_vec(f.rel))); }
+    }
+    let mut source = String::new();
+    if has_math { source.push_str("import \"math\"\n"); }
+    source.push_str(OPT_RULES);
+    if has_math { source.push_str("rule m_math : t1 { condition: math.abs(-1) == 1 }\n"); }
+    let rules_path = tdir.join("rules.yar");
+    fs::write(&rules_path, &source).unwrap();
+    let compiled_path = tdir.join("rules.yarc");
+    let rule_ids: HashMap<String, u64> = OPT_RULE_NAMES.iter().enumerate().map(|(i, n)| (n.to_string(), i as u64)).collect();
+    let root_prefix = root.to_string_lossy().to_string();
+    let mut path_ids: HashMap<String, u64> = HashMap::new();
+    for (i, f) in tree.files.iter().enumerate() { path_ids.insert(root.join(OsString::from_vec(f.rel.clone())).to_string_lossy().to_string(), i as u64); }
+    stats.inc("trees"); stats.inc("tree_kind_OptionMatrix");
+    let mut pushed = 0;
+    let nruns = if corpus { 2 } else { 3 };
+    for r in 0..nruns {
+        if pushed >= budget { break; }
+        let mut o = gen_opts(rng, corpus);
+        if corpus && r == 1 { o.ndjson = true; o.threads = 1; }
+        if !has_math { o.ignore_module = false; }
+        // ---- library oracle, with the SAME globals and scan options
+        let mut comp = yara_x::Compiler::new();
+        if o.ignore_module { comp.ignore_module("math"); }
+        define_all(&mut comp, &o.scan_vals);
+        if let Err(e) = comp.add_source(source.as_str()) { eprintln!("c18: option rules rejected by the library: {e}"); std::process::exit(2); }
+        let lib_rules = comp.build();
+        let max_depth = if o.scan_list { usize::MAX } else if !o.recursive { 0 } else { o.depth.unwrap_or(1000) };
+        let in_scope: Vec<bool> = tree.files.iter().map(|f| f.depth <= max_depth && o.skip_larger.map_or(true, |s| f.content.len() as u64 <= s)).collect();
+        let listed: Vec<bool> = tree.files.iter().map(|f| f.depth <= max_depth).collect();
+        let mut tbl: Vec<(u64, Vec<u64>)> = vec![];
+        for (i, f) in tree.files.iter().enumerate() {
+            if !in_scope[i] { continue; }
+            let mut sc = yara_x::Scanner::new(&lib_rules);
+            if let Some(m) = o.max_matches { sc.max_matches_per_pattern(m); }
+            let res = sc.scan(&f.content).expect("library scan");
+            let wanted: Vec<yara_x::Rule> = if o.negate { res.non_matching_rules().collect() } else { res.matching_rules().collect() };
+            let payloads: Vec<u64> = if o.count { vec![wanted.len() as u64] } else {
+                let mut ids: Vec<u64> = wanted.iter().filter(|r| o.tag.map_or(true, |t| r.tags().any(|x| x.identifier() == t))).map(|r| rule_ids[r.identifier()]).collect();
+                ids.sort();
+                if o.ndjson { vec![ids.iter().fold(0u64, |m, r| m | (1 << r))] } else { ids }
+            };
+            tbl.push((i as u64, payloads));
+        }
+        // ---- yr compile with the compile-time values, then both scans
+        let mut cc = Command::new(yr);
+        cc.arg("compile");
+        if o.path_as_namespace { cc.arg("--path-as-namespace"); }
+        if o.ignore_module { cc.arg("--ignore-module").arg("math"); }
+        for (n, v) in &o.compile_vals { cc.arg("--define").arg(format!("{}={}", n, v.json())); }
+        cc.arg("-o").arg(&compiled_path).arg(&rules_path).env("HOME", work);
+        let co = run_cmd(cc, limit, false, None);
+        if co.status != Some(0) { eprintln!("c18: yr compile (option stream) failed: {}", String::from_utf8_lossy(&co.stderr)); std::process::exit(2); }
+        let target: PathBuf = if o.scan_list {
+            let lp = tdir.join("list.txt");
+            let mut txt = String::new();
+            for (i, f) in tree.files.iter().enumerate() { if listed[i] { txt.push_str(&root.join(OsString::from_vec(f.rel.clone())).to_string_lossy()); txt.push('\n'); } }
+            fs::write(&lp, txt).unwrap();
+            lp
+        } else { root.clone() };
+        let mk_src = || { let mut c = Command::new(yr);
+            c.args(scan_args(&o));
+            if o.path_as_namespace { c.arg("--path-as-namespace"); }
+            if o.ignore_module { c.arg("--ignore-module").arg("math"); }
+            c.arg(&rules_path).arg(&target).env("HOME", work).env("NO_COLOR", "1"); c };
+        let mk_bin = || { let mut c = Command::new(yr);
+            c.args(scan_args(&o)).arg("--compiled-rules").arg(&compiled_path).arg(&target).env("HOME", work).env("NO_COLOR", "1"); c };
+        let so = run_retry(&mk_src, limit, false, stats);
+        let bo = run_retry(&mk_bin, limit, false, stats);
+        let sp = parse_opt_output(&so.stdout, &o, &root_prefix, &path_ids, &rule_ids);
+        let bp = parse_opt_output(&bo.stdout, &o, &root_prefix, &path_ids, &rule_ids);
+        let mut sl: Vec<&[u8]> = so.stdout.split(|b| *b == b'\n').collect(); sl.sort();
+        let mut bl: Vec<&[u8]> = bo.stdout.split(|b| *b == b'\n').collect(); bl.sort();
+        let raw_equal = sl == bl;
+        let statuses_ok = so.status == Some(0) && bo.status == Some(0) && !so.timed_out && !bo.timed_out;
+        let exp: Vec<(u64, u64)> = tbl.iter().flat_map(|(i, ps)| ps.iter().map(move |p| (*i, *p))).collect();
+        let (bx, bm, bsum) = diff_summary(&bp.lines, &exp);
+        let (sx, sm, ssum) = diff_summary(&sp.lines, &exp);
+        let class = if so.timed_out || bo.timed_out { "hang" }
+            else if !statuses_ok { "exit-status" }
+            else if sx + sm > 0 { "options:source-rules-differ-from-library" }
+            else if bx + bm > 0 { "options:compiled-rules-differ-from-source-and-library" }
+            else if !raw_equal { "options:compiled-rules-output-differs-from-source-output" }
+            else { "ok" };
+        stats.inc("runs"); stats.inc("runs_option_matrix");
+        stats.inc(if o.ndjson { "mode_Ndjson" } else { "mode_Text" });
+        stats.inc(&format!("threads_{}", match o.threads { 1 => "1", 2..=4 => "2-4", 5..=8 => "5-8", 9..=16 => "9-16", _ => "17-32" }));
+        stats.add("lines_observed", bp.lines.len() as u64);
+        if o.compile_vals.iter().zip(&o.scan_vals).any(|(a, b)| a.1.json() != b.1.json()) { stats.inc("opt_define_differs_from_compile_time"); }
+        for (on, name) in [(o.tag.is_some(), "opt_tag"), (o.negate, "opt_negate"), (o.count, "opt_count"), (o.max_matches.is_some(), "opt_max_matches"),
+                           (o.print_strings.is_some(), "opt_print_strings"), (o.print_meta, "opt_print_meta"), (o.print_tags, "opt_print_tags"),
+                           (o.print_namespace, "opt_print_namespace"), (o.path_as_namespace, "opt_path_as_namespace"), (o.skip_larger.is_some(), "opt_skip_larger"),
+                           (o.scan_list, "opt_scan_list"), (o.ignore_module, "opt_ignore_module"), (o.depth.is_some(), "opt_depth_limited"), (!o.recursive, "opt_not_recursive")] {
+            if on { stats.inc(name); }
+        }
+        if class != "ok" { stats.inc(&format!("class_{}", class)); }
+        if tbl.len() >= 2 && o.threads >= 2 { distinct.insert((tree_idx * 16 + r, o.threads, !o.ndjson, true)); }
+        let case_seed = rng.next() & 0xffff_ffff_ffff;
+        // observed = the compiled-rules run, single = the source-rules run, table = library oracle with the same globals;
+        // exit_ok also carries the byte-wise equality of the two outputs (as sorted lines)
+        let case = format!("CRun (mkRun {} {} {} {} {} {} {} {})", coq_nat(o.threads),
+            coq_list(&tbl, |(i, ps)| format!("({}%N, {})", i, coq_ns(ps))), coq_ns(&[]), coq_ns(&[]),
+            coq_pairs(&bp.lines), coq_pairs(&sp.lines), coq_bool(statuses_ok && raw_equal), coq_n(case_seed));
+        let cmd_src = format!("yr {} rules.yar <target>", scan_args(&o).join(" "));
+        let replay = format!("{{\"kind\":\"option-run\",\"class\":\"{}\",\"seed\":{},\"tree\":{},\"files_in_scope\":{},\"compile_cmd\":{},\"scan_opts\":{},\"compile_time_values\":{},\"scan_time_values\":{},\"exit_source\":{},\"exit_compiled\":{},\"raw_output_equal\":{},\"compiled_vs_library\":{},\"source_vs_library\":{},\"rules\":{},\"stderr_compiled_head\":{}}}",
+            class, seed, tree_idx, tbl.len(),
+            json_str(&format!("yr compile{}{} {} -o rules.yarc rules.yar", if o.path_as_namespace { " --path-as-namespace" } else { "" }, if o.ignore_module { " --ignore-module math" } else { "" },
+                o.compile_vals.iter().map(|(n, v)| format!("--define {}={}", n, v.json())).collect::<Vec<_>>().join(" "))),
+            json_str(&cmd_src), json_str(&format!("{:?}", o.compile_vals)), json_str(&format!("{:?}", o.scan_vals)),
+            so.status.map_or("null".to_string(), |c| c.to_string()), bo.status.map_or("null".to_string(), |c| c.to_string()), raw_equal,
+            json_str(&bsum), json_str(&ssum), json_str(&source), json_str(&String::from_utf8_lossy(&bo.stderr).chars().take(300).collect::<String>()));
+        if samples.len() < 3 && tbl.len() >= 3 && tbl.len() <= 12 { samples.push(replay.clone()); }
+        shards.push(case, replay);
+        pushed += 1;
+    }
+    let _ = fs::remove_dir_all(&tdir);
+    pushed
+}
+
 fn main() { let args: Vec<String> = std::env::args().skip(1).collect(); std::process::exit(run(&args)); }
 
 fn run(args: &[String]) -> i32 {
@@ -384,10 +664,18 @@ fn run(args: &[String]) -> i32 {
     }
 
     // ---------------- trees
+    let has_math = yara_x::Compiler::new().add_source("import \"math\" rule t { condition: math.abs(-1) == 1 }").is_ok();
     let mut tree_idx = 0usize;
     let mut run_cases = 0usize;
     while run_cases < n {
         tree_idx += 1;
+        // option matrix (source rules vs compiled rules): the second tree of every run is the fixed regression case
+        // (--define values that differ from the ones given to `yr compile`), then 30% of the trees
+        if tree_idx == 2 || (tree_idx > 2 && rng.chance(3, 10)) {
+            run_cases += option_tree(&mut rng, &work, tree_idx, &yr, cap, limit, seed, has_math, tree_idx == 2, n - run_cases,
+                                     &mut stats, &mut distinct, &mut samples, &mut shards);
+            continue;
+        }
         // regression corpus first: a tree with file names that are not UTF-8 (ndjson used to panic: fix 20aad900)
         let kind = if tree_idx == 1 { rng.below(20); TreeKind::NonUtf8 } else { match rng.below(20) {
             0..=11 => TreeKind::Stable,
@@ -457,7 +745,7 @@ fn run(args: &[String]) -> i32 {
             };
             let drop_priv = kind == TreeKind::Perm && is_root;
             // reference: one thread, intact tree
-            let single = run_cmd(base_cmd(1, false), limit, drop_priv, None);
+            let single = run_retry(&|| base_cmd(1, false), limit, drop_priv, &mut stats);
             let single_p = parse_output(&single.stdout, mode, &path_ids, &rule_ids);
             let single_ok = single.status == Some(0) && !single.timed_out;
 
@@ -478,7 +766,13 @@ fn run(args: &[String]) -> i32 {
                     std::thread::sleep(Duration::from_micros(delay_us));
                     for v in &victims { let _ = fs::remove_file(v); std::thread::sleep(Duration::from_micros(30)); }
                 };
-                let o = run_cmd(base_cmd(threads, compiled), limit, drop_priv, if victims.is_empty() { None } else { Some(&during) });
+                let o = if victims.is_empty() { run_retry(&|| base_cmd(threads, compiled), limit, drop_priv, &mut stats) }
+                        else { run_cmd(base_cmd(threads, compiled), limit, drop_priv, Some(&during)) };
+                if o.timed_out && !victims.is_empty() {
+                    // the tree has been mutated: the run cannot be repeated; other streams cover hangs
+                    stats.inc("mutated_tree_run_hit_time_limit_skipped");
+                    continue;
+                }
                 let p = parse_output(&o.stdout, mode, &path_ids, &rule_ids);
                 let (errored, other_errs, unknown_errs) = parse_errors(&o.stderr, &path_ids);
                 let exit_ok = o.status == Some(0) && !o.timed_out && single_ok;
